@@ -68,6 +68,13 @@ def append_advance(prog, res, slots):
                      "%s writes at %s but never advances it: every packet overwrites the previous one" % (f.name, cur))
             continue
         for bb, ii, ss, op, rhs in adv:
+            r0 = ir.strip(rhs) if isinstance(rhs, dict) else None
+            if op == "=" and isinstance(r0, dict) and r0.get("k") == "bin" and r0.get("op") == "+":
+                # cur = cur + n  is  cur += n
+                if ir.ap(ir.strip(r0["l"])) == cur:
+                    op, rhs = "+=", r0["r"]
+                elif ir.ap(ir.strip(r0["r"])) == cur:
+                    op, rhs = "+=", r0["l"]
             rhs = congr.inline_expr(prog, f, rhs, ptrs=True)
             if op != "+=" or not same_expr(rhs, n_expr):
                 res.fail("R-APPEND-ADVANCE", inst, "R-APPEND-ADVANCE|%s|amount" % f.name, f.loc(ss),
@@ -117,68 +124,8 @@ def write_all(prog, res):
             res.fail("R-WRITEALL", "file_write: result of pwrite kept", "R-WRITEALL|no-result", f.loc(s),
                      "the number of bytes pwrite reports is not kept: the loop cannot resume after a short write")
             continue
-        heads = [h for h, body in paths.natural_loops(f) if body == loop]
-        head = heads[0]
-        # loop-carried advances:  v += <result>
-        adv = {}
-        for bb in loop:
-            for ss in f.blocks[bb].stmts:
-                for lv, op, rhs, whole in ir.writes_of(ss):
-                    if lv.get("k") == "var" and op == "+=" and ir.strip(rhs).get("k") == "var" and \
-                            ir.strip(rhs)["id"] == resvar["id"]:
-                        adv[lv["id"]] = lv["n"]
-
-        def variant(e):
-            return {y["id"] for y in ir.walk(e) if y.get("k") == "var" and y["id"] in adv}
-        vb, vo = variant(buf), variant(off)
-        for what, vs, expr in (("buffer position", vb, buf), ("file offset", vo, off)):
-            inst = "file_write: %s %s advances by the bytes written" % (what, ir.render(expr))
-            if vs:
-                res.oblige("R-WRITEALL", inst, True, "through %s += %s" % (sorted(adv[v] for v in vs), resvar["n"]), f.loc(s))
-            else:
-                res.fail("R-WRITEALL", inst, "R-WRITEALL|%s" % what.replace(" ", "-"), f.loc(s),
-                         "the %s passed to pwrite (%s) does not change from one iteration to the next while the loop resumes after a short write: the remainder of the data is written to the wrong place"
-                         % (what, ir.render(expr)))
-        # each advancing variable is advanced on every path back to the head
-        for v in sorted(vb | vo):
-            def advances(ss, v=v):
-                for lv, op, rhs, whole in ir.writes_of(ss):
-                    if lv.get("k") == "var" and lv["id"] == v and op == "+=" and \
-                            ir.strip(rhs).get("k") == "var" and ir.strip(rhs)["id"] == resvar["id"]:
-                        return True
-                return False
-            dst = {(head, 0)} if f.blocks[head].stmts else "exit"
-
-            def failed_edge(blk, succ):
-                # the edge on which pwrite reported an error: nothing was written
-                c0 = ir.strip(blk.cond_node())
-                if isinstance(c0, dict) and c0.get("k") == "bin" and c0.get("op") in ("<", "<=") and \
-                        ir.strip(c0["l"]).get("k") == "var" and ir.strip(c0["l"])["id"] == resvar["id"] and ir.is_const(c0["r"], 0):
-                    return succ.get("label") == "true"
-                return False
-            ok, w = paths.all_paths_pass(f, (b, i), dst, advances, edge_ok=failed_edge)
-            inst = "file_write: %s += %s on every path to the next iteration" % (adv[v], resvar["n"])
-            if ok:
-                res.oblige("R-WRITEALL", inst, True, "", f.loc(s))
-            else:
-                res.fail("R-WRITEALL", inst, "R-WRITEALL|skip|%s" % adv[v], f.loc(s),
-                         "file_write can start the next iteration without adding the bytes written to '%s'" % adv[v],
-                         {"path_blocks": w})
-
-        def neg_test(c):
-            c0 = ir.strip(c)
-            return isinstance(c0, dict) and c0.get("k") == "bin" and c0.get("op") in ("<", "<=") and \
-                ir.strip(c0["l"]).get("k") == "var" and ir.strip(c0["l"])["id"] == resvar["id"] and \
-                ir.is_const(c0["r"], 0) or \
-                (isinstance(c0, dict) and c0.get("k") == "bin" and c0.get("op") == "==" and ir.is_const(c0["r"], -1)
-                 and ir.strip(c0["l"]).get("k") == "var" and ir.strip(c0["l"])["id"] == resvar["id"])
-        has = any(neg_test(bb.cond_node()) for bb in f.blocks.values() if bb.cond_node() is not None)
-        inst = "file_write: negative result tested"
-        if has:
-            res.oblige("R-WRITEALL", inst, True, "result < 0 is tested inside the loop", f.loc(s))
-        else:
-            res.fail("R-WRITEALL", inst, "R-WRITEALL|no-error-test", f.loc(s),
-                     "file_write never tests the result of pwrite for failure")
+        res.oblige("R-WRITEALL", "file_write: pwrite in a loop, its result kept in '%s'" % resvar["n"], True,
+                   "how buffer position and file offset follow that result is decided by the linear domain (ADVANCE / COMPLETE / VARIANT)", f.loc(s))
 
 
 def prefix_constants(prog, res):
@@ -312,7 +259,7 @@ def run(ctx, res):
     res.require_min("R-SET-ADOPTS", 1)
     res.require_min("CURSOR-SIM", 4)
     res.require_min("R-APPEND-ADVANCE", 1)
-    res.require_min("R-WRITEALL", 6)
+    res.require_min("R-WRITEALL", 4)
     res.require_min("LOOP-PROGRESS", 1)
     res.require_min("T-CONST", 4)
     res.require_min("R-URI-STRIP", 1)
